@@ -456,9 +456,11 @@ func (c *codegen) ifaceCall(recv ast.Expr, k imKey, x *ast.CallExpr) ([]string, 
 	r0, _ := c.expr(recv, gtype{}, false)
 	parts := []string{k.param(), paren(r0)}
 	type outArg struct {
-		v *varInfo
-		p []string
-		e ast.Expr
+		v  *varInfo
+		p  []string
+		e  ast.Expr
+		lc *lendCand // code_lend.go: the argument is a lent window
+		an ast.Expr  // code_lend.go: the argument is an ANONYMOUS lent window S[lo:hi]; an = S
 	}
 	var outs []outArg
 	for i, a := range x.Args {
@@ -471,7 +473,23 @@ func (c *codegen) ifaceCall(recv ast.Expr, k imKey, x *ast.CallExpr) ([]string, 
 			continue
 		}
 		if id, isId := a.(*ast.Ident); isId && id.Name == "nil" && c.lookup("nil") == nil {
-			outs = append(outs, outArg{nil, nil, a})
+			outs = append(outs, outArg{nil, nil, a, nil, nil})
+			continue
+		}
+		if src := c.anonLend(a, ps[i]); src != nil {
+			// code_lend.go: `X.M(S[lo:hi])` — the window is lent without a name and written back after the call
+			v, p := c.path(src)
+			c.checkRangeTarget(v, p, x)
+			c.checkAliasWrite(v, p, x, "interface method call that may write its argument")
+			if v == rv && !disjointPaths(p, rp) {
+				c.fail(a, "argument %d of %s.%s overlaps the receiver of the call", i+1, k.goName, k.meth)
+			}
+			for _, o := range outs {
+				if o.v == v && !disjointPaths(o.p, p) {
+					c.fail(a, "two arguments of %s.%s that the callee may write overlap", k.goName, k.meth)
+				}
+			}
+			outs = append(outs, outArg{v, p, a, nil, src})
 			continue
 		}
 		if rootIdent(a) == nil || indexOf(a) != nil {
@@ -479,7 +497,10 @@ func (c *codegen) ifaceCall(recv ast.Expr, k imKey, x *ast.CallExpr) ([]string, 
 		}
 		v, p := c.path(a)
 		c.checkRangeTarget(v, p, x)
-		c.checkAliasWrite(v, p, x, "interface method call that may write its argument")
+		lc := c.lentArg(x, i) // code_lend.go: a window lent to the callee is written back after the call
+		if lc == nil {
+			c.checkAliasWrite(v, p, x, "interface method call that may write its argument")
+		}
 		if v == rv && !disjointPaths(p, rp) {
 			c.fail(a, "argument %d of %s.%s overlaps the receiver of the call", i+1, k.goName, k.meth)
 		}
@@ -488,7 +509,7 @@ func (c *codegen) ifaceCall(recv ast.Expr, k imKey, x *ast.CallExpr) ([]string, 
 				c.fail(a, "two arguments of %s.%s that the callee may write overlap", k.goName, k.meth)
 			}
 		}
-		outs = append(outs, outArg{v, p, a})
+		outs = append(outs, outArg{v, p, a, lc, nil})
 	}
 	n := 1 + len(outs) + len(rs)
 	r := c.bindRes("r", strings.Join(parts, " "), x)
@@ -497,10 +518,25 @@ func (c *codegen) ifaceCall(recv ast.Expr, k imKey, x *ast.CallExpr) ([]string, 
 	c.noteOutParam(rootIdent(recv).Name, len(rp) == 0, x)
 	i := 1
 	for _, o := range outs {
+		if o.an != nil {
+			// code_lend.go: S := Slice.writeBack S <what the callee hands back>
+			cur, _ := c.expr(o.an, gtype{}, false)
+			c.cur.pre = append(c.cur.pre, "let "+o.v.lean+" : "+o.v.typ.lean()+" := "+update(o.v.lean, o.p, "Slice.writeBack "+paren(cur)+" "+paren(proj(r, i, n))))
+			c.cur.mutHoist = append(c.cur.mutHoist, hoist{rootIdent(o.an).Name, x})
+			c.noteOutParam(rootIdent(o.an).Name, false, x)
+			i++
+			continue
+		}
 		if o.v != nil {
 			c.cur.pre = append(c.cur.pre, "let "+o.v.lean+" : "+o.v.typ.lean()+" := "+update(o.v.lean, o.p, proj(r, i, n)))
 			c.cur.mutHoist = append(c.cur.mutHoist, hoist{rootIdent(o.e).Name, x})
 			c.noteOutParam(rootIdent(o.e).Name, len(o.p) == 0, x)
+			if o.lc != nil {
+				line, root := c.lendWriteBack(o.lc, o.v.lean, x)
+				c.cur.pre = append(c.cur.pre, line)
+				c.cur.mutHoist = append(c.cur.mutHoist, hoist{root, x})
+				c.noteOutParam(root, false, x)
+			}
 		}
 		i++
 	}
@@ -565,8 +601,17 @@ func (c *codegen) markIfaceEffects(call *ast.CallExpr, local func(string) bool, 
 		k := imKey{t.goName, t.name, f.Sel.Name}
 		ps, inout, _ := c.imethType(k, call)
 		for i, a := range call.Args {
+			if i < len(ps) && inout[i] {
+				if se, ok := a.(*ast.SliceExpr); ok && pathOf(se.X) != nil {
+					mark(se.X) // code_lend.go: an anonymous lent window is written back
+					continue
+				}
+			}
 			if i < len(ps) && inout[i] && rootIdent(a) != nil {
 				mark(a)
+				if lc := c.lentArg(call, i); lc != nil {
+					mark(lc.src) // code_lend.go: the source of a lent window is written back
+				}
 			}
 		}
 	case kStruct:
@@ -579,9 +624,10 @@ func (c *codegen) markIfaceEffects(call *ast.CallExpr, local func(string) bool, 
 		if sig == nil || len(sig.params) != len(call.Args) {
 			return
 		}
+		args := c.addrArgs(call.Args, sig) // code_lend.go
 		for i, sp := range sig.params {
-			if sp.out && rootIdent(call.Args[i]) != nil {
-				mark(call.Args[i])
+			if sp.out && rootIdent(args[i]) != nil {
+				mark(args[i])
 			}
 		}
 	}
